@@ -120,6 +120,7 @@ def simulate_cli(ctx, kind, db, params, observations):
         yaml.safe_dump(params, fh)
     out = ctx.scratch("sim.out")
     argv = ["simulate", kind, db, pfile, "-o", out] + (["--observations"] if observations else [])
+    # (the simulate and pestfiles sub-commands take no -v / --logfile options)
     r = cli.run(argv)
     # argparse FileType handles are left open by the tool: the content is flushed at interpreter exit only;
     # force it by closing leaked files through garbage collection
